@@ -187,6 +187,11 @@ func busyScenario(c config) e1.Scenario {
 		if err != nil {
 			panic("harness could not occupy the bind port: " + err.Error())
 		}
+		releaseTCP, err := vs.Net().HoldPort("tcp", int(ap.Port())) // the same port number in the TCP port space
+		if err != nil {
+			panic("harness could not occupy the TCP bind port: " + err.Error())
+		}
+		defer releaseTCP()
 		start = len(vs.Net().Packets)
 		u := mkClient(c)
 		if op.Broadcast {
@@ -382,7 +387,7 @@ func main() {
 	if r.Worker == "" && r.Replay == "" {
 		e1.Conformance(r)
 	}
-	r.Rule("full cross product of 6 target-controller configurations x 6 protocol strings x 4 bind addresses x 3 broadcast settings x bystander controller x constructor (1728 configurations), each x 32 operations x controllers {silent, answering} as environment choices; plus every ordered pair (thorough: also every ordered triple over the 12 UDP ones) of 24 reduced configurations {unconfigured, configured} x {udp, tcp} x {no bind, two different local addresses on the same fixed port} x {default, configured broadcast address} as clients used one after the other in one process, each call judged against its own client's configuration; and the 16 fixed-bind-port ones with the bind port already held by another socket of the host (a call may fail without sending, but nothing may leave from another source); distinct = distinct (transport, destination, answered) labels")
+	r.Rule("full cross product of 6 target-controller configurations x 6 protocol strings x 4 bind addresses x 3 broadcast settings x bystander controller x constructor (1728 configurations), each x 32 operations x controllers {silent, answering} as environment choices; plus every ordered pair (thorough: also every ordered triple over the 12 UDP ones) of 24 reduced configurations {unconfigured, configured} x {udp, tcp} x {no bind, two different local addresses on the same fixed port} x {default, configured broadcast address} as clients used one after the other in one process, each call judged against its own client's configuration; and the 16 fixed-bind-port ones with the bind port already held (UDP and TCP port space) by other sockets of the host (a call may fail without sending, but nothing may leave from another source); distinct = distinct (transport, destination, answered) labels")
 	r.Assume("reference routing function route() in this file, written from the property statement; protocol strings other than exactly \"tcp\" mean UDP")
 	r.Assume("simulated network: source address = bind address, ephemeral port when the bind port is 0")
 	r.Finish()
